@@ -357,6 +357,14 @@ def check_e2e(ctx, cases):
             continue
         if norm_names(o['names'], ordered) != norm_names(want, ordered):
             got = norm_names(o['names'], ordered)
+            if c['mode'] != 'stacked':
+                # F-C17c: only the root's default namespace is reported, so a descendant in no namespace
+                # (which needs xmlns="") is keyed by its bare name and resolves into the root's default
+                rd = dict(c['doc']['decls']).get('', '')
+                alt = [(lv, ext(rd, nm) if rd and '}' not in nm else nm, a) for lv, nm, a in norm_names(want, True)]
+                if alt != norm_names(want, True) and got == (alt if ordered else sorted(alt)):
+                    ctx.known_finding('F-C17c')
+                    continue
             diff = [x for x in got if x not in norm_names(want, ordered)][:3]
             ctx.violation('decoded keys do not resolve to the expanded names of the document (%s/%s): %s e.g. %s'
                           % (c['conv'], c['mode'], xml, diff), rep)
@@ -395,6 +403,9 @@ def run(ctx):
         d = gen_doc(rng, max_depth=3)
         for conv in ('jsonml', 'default'):
             ecases.append({'doc': d, 'conv': conv, 'mode': 'stacked'})
+        # the other two modes that keep namespace information: declarations collapsed on the root (colliding
+        # prefixes renamed) or only the root's declarations (other names stay in {uri}local form)
+        ecases.append({'doc': d, 'conv': ('jsonml', 'default')[i % 2], 'mode': ('collapsed', 'root-only', 'collapsed')[i % 3]})
     import os
     reg = common.VERIF / 'regressions' / 'C17'
     if reg.exists():
@@ -404,12 +415,12 @@ def run(ctx):
             ecases.insert(0, {'doc': r['doc'], 'conv': 'jsonml', 'mode': 'stacked'})
     ctx.rule = ('seeded documents over prefixes {p,q,default} x URIs {u1,u2,u3,absent}, depth<=4, random redeclaration / '
                 'shadowing / unsetting; mapper level: pre-order operation sequences compared with Mapper.v; end to end: '
-                'decode/encode with JsonML and default converters (stacked xmlns processing); '
+                'decode/encode with JsonML and default converters (stacked, collapsed and root-only xmlns processing); '
                 'non-trivial = at least 3 nodes and a nested declaration (mapper: a shadowed prefix)')
     check_mapper(ctx, mcases)
     check_e2e(ctx, ecases)
     ctx.assumptions = ['BadgerFish is not used here: its encoder fails on lists of children for reasons unrelated to prefixes (see C05)',
-                       'xmlns_processing modes collapsed / root-only are not claimed (prefix renaming is not modelled)',
+                       'collapsed / root-only modes are checked end to end only (resolution of the reported keys against the document); the renaming of colliding prefixes is not modelled in Mapper.v',
                        'attribute keys are resolved without the default namespace, as XML prescribes']
 
 
